@@ -840,6 +840,243 @@ def split_new_struct_locals(d, ref_adts):
     return done
 
 
+def _succs_raw(t):
+    k = t["k"]
+    if k == "goto" or k == "drop":
+        return [t["t"]]
+    if k == "switch":
+        return [x for _, x in t["arms"]] + [t["otherwise"]]
+    if k == "call":
+        return [t["ret"]] if t.get("ret") is not None else []
+    if k == "assert":
+        return [t["ok"]]
+    return []
+
+
+def _retarget(t, f):
+    k = t["k"]
+    if k == "goto" or k == "drop":
+        t["t"] = f(t["t"])
+    elif k == "switch":
+        t["arms"] = [[v, f(x)] for v, x in t["arms"]]
+        t["otherwise"] = f(t["otherwise"])
+    elif k == "call":
+        if t.get("ret") is not None:
+            t["ret"] = f(t["ret"])
+    elif k == "assert":
+        t["ok"] = f(t["ok"])
+
+
+def unroll_array_loops(d):
+    """`for x in [a, b, c] { .. }` over a local array literal (a table of (offset, size, bytes) rows walked by a loop) is unrolled on the fact
+    representation: one copy of the loop body per element, `next()` replaced by `Some(element k)`, the last copy followed by the `None` exit.  The rules then
+    read the statements the loop stands for.  Only the exact shape is touched: the array is built once by an aggregate of at most 8 operands that are
+    constants or locals assigned once, the iterator is used by that loop only, the loop has one header.  -> [(function, number of elements)]"""
+    import copy
+    done = []
+    for c in d["bodies"]:
+        if c["file"].startswith("/") or len(c["blocks"]) > 400:
+            continue
+        blocks = c["blocks"]
+
+        def defs_of(l):
+            out = []
+            for bi, blk in enumerate(blocks):
+                for st in blk["stmts"]:
+                    if st["place"]["l"] == l and not st["place"]["proj"]:
+                        out.append(("stmt", bi, st))
+                t = blk["term"]
+                if t["k"] == "call" and t["dest"]["l"] == l and not t["dest"]["proj"]:
+                    out.append(("call", bi, t))
+            return out
+
+        def whole(op):
+            pl = op.get("move") or op.get("copy") if isinstance(op, dict) else None
+            return pl["l"] if pl is not None and not pl["proj"] else None
+
+        for bi in range(len(blocks)):
+            t = blocks[bi]["term"]
+            if t["k"] != "call" or not (t.get("callee") or "").endswith("iter::IntoIterator::into_iter") or len(t["args"]) != 1:
+                continue
+            m = re.match(r"^\[.*; (\d+)\]$", str(t.get("self_ty") or ""))
+            if not m or not (1 <= int(m.group(1)) <= 8) or t.get("ret") is None or t["dest"]["proj"]:
+                continue
+            n = int(m.group(1))
+            # the array literal behind the argument
+            a = whole(t["args"][0])
+            ops = None
+            for _ in range(4):
+                if a is None:
+                    break
+                ds = defs_of(a)
+                if len(ds) != 1 or ds[0][0] != "stmt":
+                    break
+                rv = ds[0][2]["rv"]
+                if rv["k"] == "agg" and rv["kind"] == "array" and len(rv["ops"]) == n:
+                    ops = rv["ops"]
+                    break
+                a = whole(rv["a"]) if rv["k"] == "use" else None
+            if ops is None:
+                continue
+            elems = []
+            for op in ops:
+                if "const" in op:
+                    elems.append(op)
+                    continue
+                l = whole(op)
+                if l is None or len(defs_of(l)) != 1:
+                    elems = None
+                    break
+                elems.append({"copy": {"l": l, "proj": []}})
+            if elems is None:
+                continue
+            # the iterator local (through whole moves) and the loop header that calls next() on it
+            it = t["dest"]["l"]
+            for _ in range(3):
+                mv = [(bj, st) for bj, blk in enumerate(blocks) for st in blk["stmts"] if st["rv"]["k"] == "use" and whole(st["rv"]["a"]) == it and not st["place"]["proj"]]
+                if len(mv) == 1:
+                    it = mv[0][1]["place"]["l"]
+                else:
+                    break
+            heads = []
+            for hj, blk in enumerate(blocks):
+                tt = blk["term"]
+                if tt["k"] == "call" and (tt.get("callee") or "").endswith("iter::Iterator::next") and len(tt["args"]) == 1 and tt.get("ret") is not None and not tt["dest"]["proj"]:
+                    # the argument is a (re)borrow of the iterator made in this block
+                    r = whole(tt["args"][0])
+                    seen = set()
+                    while r is not None and r not in seen:
+                        seen.add(r)
+                        src = [st for st in blk["stmts"] if st["place"]["l"] == r and not st["place"]["proj"] and st["rv"]["k"] == "ref"]
+                        if len(src) != 1:
+                            r = None
+                            break
+                        pl = src[0]["rv"]["p"]
+                        if pl["l"] == it and not pl["proj"]:
+                            heads.append(hj)
+                            break
+                        r = pl["l"] if pl["proj"] == ["deref"] else None
+            if len(heads) != 1:
+                continue
+            H = heads[0]
+            th = blocks[H]["term"]
+            R, S = th["dest"]["l"], th["ret"]
+            sb = blocks[S]
+            if sb["term"]["k"] != "switch" or len(sb["stmts"]) != 1 or sb["stmts"][0]["rv"]["k"] != "discr" or sb["stmts"][0]["rv"]["p"] != {"l": R, "proj": []}:
+                continue
+            arms = {int(v): x for v, x in sb["term"]["arms"]}
+            if 0 not in arms or (1 not in arms and sb["term"]["otherwise"] is None):
+                continue
+            EXIT, BODY = arms[0], arms.get(1, sb["term"]["otherwise"])
+            # the loop: blocks that reach H without leaving through EXIT, reachable from BODY
+            preds = {}
+            for x, blk in enumerate(blocks):
+                if blk["cleanup"]:
+                    continue
+                for y in _succs_raw(blk["term"]):
+                    preds.setdefault(y, []).append(x)
+            fwd, st_ = set(), [BODY]
+            while st_:
+                x = st_.pop()
+                if x in fwd or x == H:
+                    continue
+                fwd.add(x)
+                st_.extend(y for y in _succs_raw(blocks[x]["term"]) if not blocks[y]["cleanup"])
+            bwd, st_ = set(), [H]
+            while st_:
+                x = st_.pop()
+                if x in bwd:
+                    continue
+                bwd.add(x)
+                st_.extend(y for y in preds.get(x, []) if y != S and y != H)
+            loop = (fwd & bwd) | {H, S}
+            entries = [x for x in preds.get(H, []) if x not in loop]
+            if not entries or len(loop) > 40 or EXIT in loop:
+                continue
+            some_kind = {"adt": "std::option::Option", "variant": "Some", "vi": 1, "fields": ["0"]}
+            none_kind = {"adt": "std::option::Option", "variant": "None", "vi": 0, "fields": []}
+            line = th.get("line")
+            order = sorted(loop)
+            base = len(blocks)
+            idx = lambda k, x: base + k * len(order) + order.index(x)
+            final = base + n * len(order)
+            for k in range(n):
+                for x in order:
+                    nb = copy.deepcopy(blocks[x])
+                    if x == H:
+                        nb["stmts"].append({"place": {"l": R, "proj": []}, "rv": {"k": "agg", "kind": dict(some_kind), "ops": [copy.deepcopy(elems[k])]}, "line": line, "mac": False})
+                        nb["term"] = {"k": "goto", "t": idx(k, S)}
+                    elif x == S:
+                        nb["term"] = {"k": "goto", "t": idx(k, BODY) if BODY in loop else BODY}
+                    else:
+                        _retarget(nb["term"], lambda y, k=k: (idx(k + 1, H) if k + 1 < n else final) if y == H else (idx(k, y) if y in loop else y))
+                    blocks.append(nb)
+            blocks.append({"cleanup": False, "stmts": [{"place": {"l": R, "proj": []}, "rv": {"k": "agg", "kind": dict(none_kind), "ops": []}, "line": line, "mac": False}] + copy.deepcopy(sb["stmts"]),
+                           "term": {"k": "goto", "t": EXIT}})
+            for x in entries:
+                _retarget(blocks[x]["term"], lambda y: idx(0, H) if y == H else y)
+            done.append((c["path"], n))
+        # `[a, b, c].iter().for_each(|row| ..)`: one call of the closure per element, in order
+        for bi in range(len(blocks)):
+            t = blocks[bi]["term"]
+            if (t["k"] != "call" or not (t.get("callee") or "").endswith("iter::Iterator::for_each") or len(t["args"]) != 2 or t.get("ret") is None
+                    or not re.match(r"^(std|core)::slice::Iter<", str(t.get("self_ty") or ""))):
+                continue
+            it, clo = whole(t["args"][0]), whole(t["args"][1])
+            if it is None or clo is None:
+                continue
+            ds = defs_of(it)
+            if len(ds) != 1 or ds[0][0] != "call" or not (ds[0][2].get("callee") or "").endswith("<impl [T]>::iter") or len(ds[0][2]["args"]) != 1:
+                continue
+            # the slice is a reference to an array literal (through the unsizing cast)
+            a = whole(ds[0][2]["args"][0])
+            ops = None
+            for _ in range(6):
+                if a is None:
+                    break
+                dd = defs_of(a)
+                if len(dd) != 1 or dd[0][0] != "stmt":
+                    break
+                rv = dd[0][2]["rv"]
+                if rv["k"] == "agg" and rv["kind"] == "array" and 1 <= len(rv["ops"]) <= 8:
+                    ops = rv["ops"]
+                    break
+                if rv["k"] in ("use", "cast"):
+                    a = whole(rv["a"])
+                elif rv["k"] == "ref" and (not rv["p"]["proj"] or rv["p"]["proj"] == ["deref"]):
+                    a = rv["p"]["l"]
+                else:
+                    a = None
+            if ops is None:
+                continue
+            els = [whole(op) for op in ops]
+            if any(l is None or len(defs_of(l)) != 1 for l in els):
+                continue
+            ety = re.sub(r"^(std|core)::slice::Iter<'\w+, (.*)>$", r"\2", str(t["self_ty"]))
+            nxt = t["ret"]
+            first = None
+            prev = None
+            for k, l in enumerate(els):
+                L0 = len(c["locals"])
+                c["locals"].extend([{"ty": "&" + ety, "name": None}, {"ty": "(&%s,)" % ety, "name": None}, {"ty": "&mut " + c["locals"][clo]["ty"], "name": None}, {"ty": "()", "name": None}])
+                nb = {"cleanup": False, "stmts": [
+                    {"place": {"l": L0, "proj": []}, "rv": {"k": "ref", "mut": False, "p": {"l": l, "proj": []}}, "line": t.get("line"), "mac": False},
+                    {"place": {"l": L0 + 1, "proj": []}, "rv": {"k": "agg", "kind": "tuple", "ops": [{"move": {"l": L0, "proj": []}}]}, "line": t.get("line"), "mac": False},
+                    {"place": {"l": L0 + 2, "proj": []}, "rv": {"k": "ref", "mut": True, "p": {"l": clo, "proj": []}}, "line": t.get("line"), "mac": False}],
+                    "term": {"k": "call", "callee": "std::ops::FnMut::call_mut", "substs": [], "self_ty": None, "resolved": "std::ops::FnMut::call_mut", "fop": None,
+                             "args": [{"move": {"l": L0 + 2, "proj": []}}, {"move": {"l": L0 + 1, "proj": []}}], "dest": {"l": L0 + 3, "proj": []}, "ret": nxt,
+                             "line": t.get("line"), "mac": False}}
+                blocks.append(nb)
+                if prev is not None:
+                    prev["term"]["ret"] = len(blocks) - 1
+                else:
+                    first = len(blocks) - 1
+                prev = nb
+            blocks[bi]["term"] = {"k": "goto", "t": first}
+            done.append((c["path"], len(els)))
+    return done
+
+
 class Facts:
     def __init__(self, path, config=None):
         self.path = path
@@ -847,6 +1084,7 @@ class Facts:
         with open(path) as fh:
             d = json.loads(canonical_closure_numbers(fh.read()))
         self.spliced = splice_new_helpers(d, _reference_functions())
+        self.unrolled = unroll_array_loops(d)
         self.split_locals = split_new_struct_locals(d, _reference_adts())
         self.raw = d
         self.crate = d["crate"]
